@@ -9,6 +9,7 @@ virtual clock jumps to the earliest wake-up time; when there is none the run end
 import gc
 import hashlib
 import math
+import os
 import sys
 import threading
 import traceback
@@ -60,7 +61,9 @@ class Sched(object):
         self.running = False
         self.steps = 0                  # scheduling decisions with a real choice
         self.decisions = 0              # all scheduling decisions (also forced ones)
+        self.traced_callers = {}        # code -> set of caller codes: trace that function only when called from these
         self.hold_choices = (0, 3, 12, 50, 200)
+        self.hold_time_choices = (0.0, 0.0, 0.004, 0.03, 0.25)   # virtual seconds a held thread may stay descheduled
         self.gc_tick = 0
         self.in_gc = False
         self.unlock_hold = None         # (n, d): chance that a thread releasing a shared lock is held back
@@ -77,7 +80,7 @@ class Sched(object):
         self.stopped = False
         self.h = hashlib.sha256()
         self.events = []
-        self.keep_events = keep_events
+        self.keep_events = keep_events if not os.environ.get('VERIF_EVENTS') else 100000
         self.nevents = 0
         self.probes = {}
         self.sched_sig = hashlib.sha256()   # signature of the context-switch sequence only
@@ -120,6 +123,7 @@ class Sched(object):
         th._sim_name = name or ('t%d' % th._sim_tid)
         th._sim_exc = None
         th._sim_hold = 0
+        th._sim_hold_t = 0.0
         th._sim_calls = 0
         th._sim_call_cap = 0
         self.threads.append(th)
@@ -182,7 +186,19 @@ class Sched(object):
                 else:
                     out.append(t)
         if not out and held:
-            # everybody else is blocked: a pre-empted thread held back may go on
+            # everybody else is blocked.  A held thread may stay descheduled while the clock moves on
+            # to the next timer / segment delivery, as long as that lies within its time allowance
+            # (so that requests already in flight from other sessions arrive "during" the pre-emption);
+            # otherwise it goes on
+            wt = INF
+            for t in self.threads:
+                if t._sim_state == 'wait':
+                    w = t._sim_waiter.wake_time()
+                    if w < wt:
+                        wt = w
+            lim = min(t._sim_hold_t for t in held)
+            if wt < INF and wt <= lim:
+                return []
             for t in held:
                 t._sim_hold = 0
             return held
@@ -374,7 +390,9 @@ class Sched(object):
                         self._end('WORK_CAP', 'thread %d exceeded its call budget in %s' % (c._sim_tid, frame.f_code.co_name))
                         self._park_forever()
             if frame.f_code in self.traced_codes:
-                return self._local_trace
+                allowed = self.traced_callers.get(frame.f_code)
+                if allowed is None or (frame.f_back is not None and frame.f_back.f_code in allowed):
+                    return self._local_trace
         return None
 
     def _local_trace(self, frame, event, arg):
@@ -405,6 +423,7 @@ class Sched(object):
         # hold the pre-empted thread back for a tape-chosen number of scheduling decisions (PCT-style
         # priority drop): the others run into the window it left open
         self.current._sim_hold = self.decisions + self.tape.choice(self.hold_choices, 'hold')
+        self.current._sim_hold_t = self.now + self.tape.choice(self.hold_time_choices, 'holdt')
         self.yield_('preempt', force_other=True)
 
     # ------------------------------------------------------------------ diagnostics
@@ -531,6 +550,7 @@ class SimLock(object):
                     # run into whatever it was going to do next with the formerly protected state
                     s.probe('unlock_hold')
                     s.current._sim_hold = s.decisions + s.tape.choice(s.hold_choices, 'uhold')
+                    s.current._sim_hold_t = s.now + s.tape.choice(s.hold_time_choices, 'uholdt')
                     s.yield_('unlock', force_other=True)
                 else:
                     s.yield_('unlock')
